@@ -93,7 +93,7 @@ def namesN : Node → List Name
   | .call _ x _ _ => [x]
   | .block (some b) _ k => b :: namesL k
   | .block none _ k => namesL k
-  | .defn _ k => namesL k
+  | .defn _ _ k => namesL k
   | .callTag k => namesL k
   | _ => []
 def namesL : List Node → List Name
@@ -111,7 +111,7 @@ mutual
 def allBlocksN : Node → List Name
   | .block (some b) _ k => b :: allBlocksL k
   | .block none _ k => allBlocksL k
-  | .defn _ k => allBlocksL k
+  | .defn _ _ k => allBlocksL k
   | .callTag k => allBlocksL k
   | _ => []
 def allBlocksL : List Node → List Name
@@ -122,7 +122,7 @@ end
 mutual
 /-- the named blocks that have a `<%def>` or `<%call>` ancestor -/
 def misplacedN : Node → List Name
-  | .defn _ k => allBlocksL k
+  | .defn _ _ k => allBlocksL k
   | .callTag k => allBlocksL k
   | .block _ _ k => misplacedL k
   | _ => []
@@ -145,7 +145,7 @@ end
 mutual
 /-- names of all defs, wherever they are nested -/
 def allDefNamesN : Node → List Name
-  | .defn n k => n :: allDefNamesL k
+  | .defn n _ k => n :: allDefNamesL k
   | .block _ _ k => allDefNamesL k
   | .callTag k => allDefNamesL k
   | _ => []
@@ -159,7 +159,7 @@ mutual
 def allAnonLinesN : Node → List Nat
   | .block none ln k => ln :: allAnonLinesL k
   | .block (some _) _ k => allAnonLinesL k
-  | .defn _ k => allAnonLinesL k
+  | .defn _ _ k => allAnonLinesL k
   | .callTag k => allAnonLinesL k
   | _ => []
 def allAnonLinesL : List Node → List Nat
